@@ -160,7 +160,7 @@ Fns(k) ==
       [] k = "qsp"   -> {"qs_pairs_roundtrip"}
       [] k = "types" -> {"utf8_type", "to_unicode_type"}
       [] k = "json"  -> {"json_encode"}
-Results(k, x) == [fn \in Fns(k) |-> Ref(fn, x)]
+Results(k, x) == [fn \in (IF k = "types" /\ x = <<>> THEN {} ELSE Fns(k)) |-> Ref(fn, x)]
 
 (* does the observation of the real helper agree with the specification?  (used by Trace_Escapes) *)
 Accept(fn, x, obs) ==
@@ -192,7 +192,9 @@ Extend(tok) ==
     /\ UNCHANGED cfg
     /\ step' = Obs("extend", <<tok>>)
 
-(* JSON values are built inside-out *)
+(* JSON values are built inside-out; to keep the enumeration small, strings of <= 2 tokens are
+   wrapped once and strings of <= 1 token twice *)
+JWrappable == (JDepth(inp) = 0 /\ n <= 2) \/ (JDepth(inp) = 1 /\ n <= 1)
 JExtend(tok) ==
     /\ cfg.kind = "json" /\ inp.k = "str" /\ n < MaxTok
     /\ tok \in Tokens("json")
@@ -200,17 +202,17 @@ JExtend(tok) ==
     /\ n' = n + 1 /\ UNCHANGED cfg
     /\ step' = Obs("jextend", <<tok>>)
 JWrapList(leaf) ==
-    /\ cfg.kind = "json" /\ JDepth(inp) < 2 /\ leaf \in JLeaves
+    /\ cfg.kind = "json" /\ JWrappable /\ leaf \in JLeaves
     /\ inp' = [k |-> "list", v |-> <<inp, leaf>>]
     /\ UNCHANGED <<cfg, n>>
     /\ step' = Obs("jwraplist", <<leaf>>)
 JWrapDict(key) ==
-    /\ cfg.kind = "json" /\ JDepth(inp) < 2 /\ key \in {<<97>>, <<60, 47>>, <<>>}
+    /\ cfg.kind = "json" /\ JWrappable /\ key \in {<<97>>, <<60, 47>>, <<>>}
     /\ inp' = [k |-> "dict", v |-> <<[key |-> key, val |-> inp]>>]
     /\ UNCHANGED <<cfg, n>>
     /\ step' = Obs("jwrapdict", <<key>>)
 JAsKey ==
-    /\ cfg.kind = "json" /\ inp.k = "str"
+    /\ cfg.kind = "json" /\ inp.k = "str" /\ JWrappable
     /\ inp' = [k |-> "dict", v |-> <<[key |-> inp.v, val |-> [k |-> "int", v |-> 7]]>>]
     /\ UNCHANGED <<cfg, n>>
     /\ step' = Obs("jaskey", <<>>)
